@@ -8,7 +8,7 @@ class C15(Spec):
     required_theorems = (
         "C15.err_no_change", "C15.nonneg_main_partial", "C15.nonneg_partial", "C15.supply_delta_partial",
         "C15.deficit_delta_partial", "C15.alias_safe_partial", "C15.alias_mints", "C15.no_overflow_partial",
-        "C15.case_insensitive", "C15.case_insensitive_write",
+        "C15.case_insensitive", "C15.case_insensitive_write", "C15.normEth_idempotent", "C15.normEth_case_variants",
         "C15.nonneg_full_false", "C15.no_overflow_full_false", "C15.alias_safe_full_false", "C15.supply_full_false",
     )
     partial = (
@@ -44,7 +44,7 @@ class C15(Spec):
     assumptions = (
         "the KV store behaves as a map (GoMemDB in the harness)",
         "protobuf encode/decode of types.Account round-trips addr/balance/frozen (observed through LoadAccount in the tie)",
-        "address.FormatAddrKey lower-cases exactly the strings go-ethereum IsHexAddress accepts (model normEth; checked by the differential run)",
+        "address.FormatAddrKey lower-cases exactly the strings go-ethereum IsHexAddress accepts (model normEth, proved idempotent and case-insensitive on hex addresses; agreement with the code is checked by the differential run, ASCII spellings only)",
         "a Go panic inside TransferWithdraw/GenesisInitExec aborts the caller's transaction; no ledger equation is asserted across it",
     )
 
